@@ -1,30 +1,41 @@
 /-
-  Lemmas about the quiescent state of the closed loop: what holds when no event is pending any more.
+  Lemmas about what a turn of the loop preserves, about the quiescent state, and about histories.
 -/
-import Kopf.Lemmas.C03_Rank
+import Kopf.Lemmas.C03_Turn
 namespace Kopf.C03
 open Kopf Kopf.C02
 
 variable {E : Type} [DecidableEq E]
 
+/-! ### shape of a turn; what it preserves -/
+
 theorem loopStep_form (env : Env) (s : State E) :
-    loopStep env s = s ∨ loopStep env s = { s with pending := false } ∨
+    loopStep env s = s ∨ loopStep env s = { s with pending := false } ∨ loopStep env s = addState env s ∨
+    (∃ g, loopStep env s = remState env s g) ∨ loopStep env s = releaseTurn env s ∨
     ∃ now' pend w, loopStep env s = nextState env s now' pend w := by
-  cases hp : s.pending
+  by_cases hp : s.pending = true
+  rotate_left
   · left; unfold loopStep; simp [hp]
-  · cases hpm : env.prematch
-    · right; left; unfold loopStep; simp [hp, hpm]
-    · right; right
-      rcases loopStep_cases env s hp hpm with ⟨_, h⟩ | ⟨d, _, _, h⟩ | ⟨_, _, h⟩
-      · exact ⟨_, _, _, h⟩
-      · exact ⟨_, _, _, h⟩
-      · exact ⟨_, _, _, h⟩
+  by_cases hg : s.gone = true
+  · right; left; unfold loopStep; simp [hp, hg]
+  have hg' : s.gone = false := by simpa using hg
+  rcases turn_cases env s hp hg' with ⟨_, _, _, _, h⟩ | ⟨_, _, h⟩ | ⟨_, _, h⟩ | ⟨_, _, _, _, _, h⟩ | ⟨_, _, _, _, h⟩
+  · exact Or.inr (Or.inr (Or.inl h))
+  · exact Or.inr (Or.inr (Or.inr (Or.inl ⟨_, h⟩)))
+  · exact Or.inr (Or.inl h)
+  · exact Or.inr (Or.inr (Or.inr (Or.inr (Or.inl h))))
+  · right; right; right; right; right
+    rw [h]
+    rcases handleTurn_cases env s with ⟨_, h'⟩ | ⟨d, _, _, h'⟩ | ⟨_, _, h'⟩ <;> exact ⟨_, _, _, h'⟩
 
 theorem loopStep_ess (env : Env) (s : State E) : (loopStep env s).ess = s.ess := by
-  rcases loopStep_form env s with h | h | ⟨_, _, _, h⟩ <;> rw [h] <;> rfl
+  rcases loopStep_form env s with h | h | h | ⟨_, h⟩ | h | ⟨_, _, _, h⟩ <;> rw [h] <;> rfl
 
 theorem loopStep_noticed (env : Env) (s : State E) : (loopStep env s).noticed = s.noticed := by
-  rcases loopStep_form env s with h | h | ⟨_, _, _, h⟩ <;> rw [h] <;> rfl
+  rcases loopStep_form env s with h | h | h | ⟨_, h⟩ | h | ⟨_, _, _, h⟩ <;> rw [h] <;> rfl
+
+theorem loopStep_marked (env : Env) (s : State E) : (loopStep env s).marked = s.marked := by
+  rcases loopStep_form env s with h | h | h | ⟨_, h⟩ | h | ⟨_, _, _, h⟩ <;> rw [h] <;> rfl
 
 theorem loopStep_quiescent (env : Env) (s : State E) (h : s.pending = false) : loopStep env s = s := by
   unfold loopStep; simp [h]
@@ -39,14 +50,20 @@ theorem iter_ess (env : Env) (n : Nat) : ∀ s : State E, (iter env n s).ess = s
   | zero => intro s; rfl
   | succ n ih => intro s; simp only [iter]; rw [ih, loopStep_ess]
 
+theorem wf_exec (env : Env) (wf : WF env) (x : Id → Nat → Outcome) : WF { env with exec := x } :=
+  ⟨wf.sub, wf.lat, wf.cap⟩
+
 theorem loopStep_uniform (env : Env) (wf : WF env) (s : State E) (hu : UniformOn env.owned s.P) :
     UniformOn env.owned (loopStep env s).P := by
   have hsub : ∀ i ∈ (cfgOf env s).selected, i ∈ (cfgOf env s).owned := fun i hi => wf.sub _ i hi
   have hup : UniformOn env.owned (pass env s).P' :=
     uniform_preserved (cfgOf env s) s.P s.now s.now env.exec hsub hu
-  rcases loopStep_form env s with h | h | ⟨_, _, _, h⟩ <;> rw [h]
+  rcases loopStep_form env s with h | h | h | ⟨_, h⟩ | h | ⟨_, _, _, h⟩ <;> rw [h]
   · exact hu
   · exact hu
+  · exact hu
+  · exact hu
+  · exact hup
   · exact hup
 
 theorem iter_uniform (env : Env) (wf : WF env) (n : Nat) :
@@ -55,28 +72,31 @@ theorem iter_uniform (env : Env) (wf : WF env) (n : Nat) :
   | zero => intro s h; exact h
   | succ n ih => intro s h; simp only [iter]; exact ih _ (loopStep_uniform env wf s h)
 
-/-- without a handler reason the cause is the no-op: the stored last-handled state is the essence and
-    nothing initial is outstanding -/
-theorem not_handler_noop (s : State E) (h : isHandler s = false) :
-    s.base = some s.ess ∧ (s.noticed && !s.fullyHandled) = false := by
+/-! ### the quiescent state of an object that is not being deleted -/
+
+/-- without a handler reason on an unmarked object the cause is the no-op: the stored last-handled
+    state is the essence and nothing initial is outstanding -/
+theorem not_handler_noop (s : State E) (hm : s.marked = false) (h : isHandler s = false) :
+    (causeOf s).reason = .noop ∧ s.base = some s.ess ∧ (s.noticed && !s.fullyHandled) = false := by
   unfold isHandler causeOf C05.detect C05.detectReason at h
+  unfold causeOf C05.detect C05.detectReason
   cases hb : s.base with
-  | none => simp [hb, C14.reasonStr] at h; exact absurd (by decide) h
+  | none => simp [hm, hb, C14.reasonStr] at h; exact absurd (by decide) h
   | some b =>
     by_cases hbe : b = s.ess
     · subst hbe
       cases hi : (s.noticed && !s.fullyHandled)
-      · exact ⟨rfl, rfl⟩
-      · simp [hb, hi, C14.reasonStr] at h; exact absurd (by decide) h
+      · simp [hm, hi]
+      · simp [hm, hb, hi, C14.reasonStr] at h; exact absurd (by decide) h
     · have : (some b ≠ some s.ess) := fun hh => hbe (Option.some.inj hh)
-      simp [hb, this, C14.reasonStr] at h; exact absurd (by decide) h
+      simp [hm, hb, this, C14.reasonStr] at h; exact absurd (by decide) h
 
 /-- an open pass with a handler reason always leaves an event pending: a PATCH or a sleep + touch -/
-theorem open_next (env : Env) (s : State E) (hp : s.pending = true) (hpm : env.prematch = true)
-    (hh : isHandler s = true) (hc : (pass env s).closed = false) :
-    ∃ now' w, loopStep env s = nextState env s now' true w := by
+theorem open_handle_pending (env : Env) (s : State E) (hh : isHandler s = true)
+    (hc : (pass env s).closed = false) :
+    ∃ now' w, handleTurn env s = nextState env s now' true w := by
   have hr : handlerReasons.contains (cfgOf env s).reason = true := hh
-  rcases loopStep_cases env s hp hpm with ⟨_, h⟩ | ⟨d, _, _, h⟩ | ⟨_, hm, _⟩
+  rcases handleTurn_cases env s with ⟨_, h⟩ | ⟨d, _, _, h⟩ | ⟨_, hm, _⟩
   · exact ⟨_, _, h⟩
   · exact ⟨_, _, h⟩
   · exfalso
@@ -93,162 +113,38 @@ theorem open_next (env : Env) (s : State E) (hp : s.pending = true) (hpm : env.p
     rw [cycle_main _ _ _ _ _ hr hne] at hnil hc
     exact delays_ne_nil _ _ _ hc hnil
 
-/-- when a turn of the loop ends with no event pending, the last-handled state is the essence -/
-theorem quiescent_after_step (env : Env) (s : State E) (hp : s.pending = true) (hpm : env.prematch = true)
-    (hq : (loopStep env s).pending = false) :
-    (loopStep env s).base = some s.ess ∧
-    ((loopStep env s).noticed && !(loopStep env s).fullyHandled) = false := by
-  rcases loopStep_cases env s hp hpm with ⟨_, h⟩ | ⟨d, _, _, h⟩ | ⟨_, hm, h⟩
-  · rw [h] at hq; cases hq
-  · rw [h] at hq; cases hq
-  · by_cases hc : (pass env s).closed = true
-    · rw [h]; simp [nextState, hc]
-    · have hc' : (pass env s).closed = false := by simpa using hc
-      by_cases hh : isHandler s = true
-      · obtain ⟨now', w, h'⟩ := open_next env s hp hpm hh hc'
-        rw [h'] at hq; cases hq
-      · have hh' : isHandler s = false := by simpa using hh
-        obtain ⟨h1, h2⟩ := not_handler_noop s hh'
-        rw [h]
-        simp [nextState, hc', h1, h2]
-
-/-- in a state whose last-handled state is the essence and with nothing initial outstanding, a
-    (re-)delivered event is processed without any write and leaves nothing pending -/
-theorem settled_event_no_write (env : Env) (t : State E) (hb : t.base = some t.ess)
-    (hi : (t.noticed && !t.fullyHandled) = false) :
-    (loopStep env { t with pending := true }).writes = t.writes ∧
-    (loopStep env { t with pending := true }).pending = false ∧
-    (loopStep env { t with pending := true }).base = t.base ∧
-    ∀ i, (loopStep env { t with pending := true }).P i = t.P i := by
-  by_cases hpm : env.prematch = true
-  · have hh : isHandler ({ t with pending := true } : State E) = false := by
-      unfold isHandler causeOf
-      simp [hb, hi, C05.detect, C05.detectReason, C14.reasonStr]
-      decide
-    have hpass : pass env ({ t with pending := true } : State E) =
-        { invoked := [], P' := t.P, closed := false, delays := [] } :=
-      cycle_not_handler_reason (cfgOf env _) t.P t.now t.now env.exec hh
-    have hnc : changedOf env ({ t with pending := true } : State E) = false := by
-      unfold changedOf
-      rw [hpass]
-      simp
-    rcases loopStep_cases env ({ t with pending := true } : State E) rfl hpm with ⟨h, _⟩ | ⟨d, _, hm, _⟩ | ⟨_, _, h⟩
-    · rw [hnc] at h; cases h
-    · rw [hpass] at hm; simp [minDelay] at hm
-    · rw [h]
-      simp [nextState, hpass]
-  · have hpm' : env.prematch = false := by simpa using hpm
-    have : loopStep env ({ t with pending := true } : State E) = { t with pending := false } := by
-      unfold loopStep; simp [hpm']
-    rw [this]
-    simp
-
-/-! ### the guard under which no progress record survives -/
-
-/-- The cause has a handler reason (creation, update, resuming) — so the cycle will be closed by a pass
-    that purges every owned record, with or without selected handlers — or nothing is recorded at all.
-    What it excludes: the no-op cause (last-handled = essence, nothing initial) over leftover records. -/
-def Purging (env : Env) (s : State E) : Prop :=
-  isHandler s = true ∨ (∀ i ∈ env.owned, s.P i = none)
-
-theorem purging_step (env : Env) (s : State E) (hp : s.pending = true) (hpm : env.prematch = true)
-    (hg : Purging env s) :
-    ((loopStep env s).pending = true ∧ Purging env (loopStep env s)) ∨
-    ((loopStep env s).pending = false ∧ ∀ i ∈ env.owned, (loopStep env s).P i = none) := by
-  -- what the pass leaves, by the three kinds of pass
-  have hP' : ∀ now' pend w, (nextState env s now' pend w).P = (pass env s).P' := fun _ _ _ => rfl
-  by_cases hh : isHandler s = true
-  · have hr : handlerReasons.contains (cfgOf env s).reason = true := hh
-    by_cases hc : (pass env s).closed = true
-    · -- closing pass: either handlers were executed (purge of all owned) or nothing was recorded
-      have hnone : ∀ i ∈ env.owned, (pass env s).P' i = none := by
-        cases he : (cfgOf env s).selected.isEmpty
-        · exact closed_purges (cfgOf env s) s.P s.now s.now env.exec hr he hc
-        · exact (closed_purges_skip (cfgOf env s) s.P s.now s.now env.exec hr he).2
-      rcases loopStep_cases env s hp hpm with ⟨_, h⟩ | ⟨d, _, _, h⟩ | ⟨_, _, h⟩
-      · left; rw [h]; exact ⟨rfl, Or.inr (by rw [hP']; exact hnone)⟩
-      · left; rw [h]; exact ⟨rfl, Or.inr (by rw [hP']; exact hnone)⟩
-      · right; rw [h]; exact ⟨rfl, by rw [hP']; exact hnone⟩
-    · have hc' : (pass env s).closed = false := by simpa using hc
-      obtain ⟨now', w, h⟩ := open_next env s hp hpm hh hc'
-      left
-      rw [h]
-      refine ⟨rfl, Or.inl ?_⟩
-      have hcz : causeOf (nextState env s now' true w) = causeOf s :=
-        causeOf_congr s _ (by simp [nextState, hc']) rfl rfl (by simp [nextState, hc'])
-      unfold isHandler
-      rw [hcz]
-      exact hh
-  · have hh' : isHandler s = false := by simpa using hh
-    rcases hg with h1 | hn
-    · rw [h1] at hh'; cases hh'
-    · have hpass : pass env s = { invoked := [], P' := s.P, closed := false, delays := [] } :=
-        cycle_not_handler_reason (cfgOf env s) s.P s.now s.now env.exec hh'
-      have hnone : ∀ i ∈ env.owned, (pass env s).P' i = none := by rw [hpass]; exact hn
-      rcases loopStep_cases env s hp hpm with ⟨_, h⟩ | ⟨d, _, _, h⟩ | ⟨_, _, h⟩
-      · left; rw [h]; exact ⟨rfl, Or.inr (by rw [hP']; exact hnone)⟩
-      · left; rw [h]; exact ⟨rfl, Or.inr (by rw [hP']; exact hnone)⟩
-      · right; rw [h]; exact ⟨rfl, by rw [hP']; exact hnone⟩
-
-
-/-! ### the invocations of the following turns, and C02's pass sequence -/
-
-/-- invocations of the next `n` turns, up to and including the closing pass -/
-def invsOf (env : Env) : Nat → State E → List (List (Id × Nat))
-  | 0, _ => []
-  | n + 1, s => (pass env s).invoked ::
-      (if (pass env s).closed then [] else invsOf env n (loopStep env s))
-
-/-- the clock readings / handler behaviour of the next `n` turns, as C02 `Step`s -/
-def stepsOf (env : Env) : Nat → State E → List C02.Step
-  | 0, _ => []
-  | n + 1, s => ⟨s.now, s.now, env.exec⟩ :: stepsOf env n (loopStep env s)
-
-theorem invs_eq (env : Env) (hpm : env.prematch = true) (n : Nat) :
-    ∀ (s : State E), s.pending = true → isHandler s = true →
-      invsOf env n s = invokedSeq (cfgOf env s) s.P (stepsOf env n s) := by
-  induction n with
-  | zero => intro s _ _; rfl
-  | succ n ih =>
-    intro s hp hh
-    simp only [invsOf, stepsOf, invokedSeq]
-    show (pass env s).invoked :: _ = (pass env s).invoked :: _
-    congr 1
-    cases hc : (pass env s).closed
-    · have hc2 : (cycle (cfgOf env s) s.P s.now s.now env.exec).closed = false := hc
-      simp only [hc2, Bool.false_eq_true, if_false]
-      obtain ⟨now', w, h⟩ := open_next env s hp hpm hh hc
-      have hcz : causeOf (nextState env s now' true w) = causeOf s :=
-        causeOf_congr s _ (by simp [nextState, hc]) rfl rfl (by simp [nextState, hc])
-      have hcfg : cfgOf env (loopStep env s) = cfgOf env s := by rw [h]; unfold cfgOf; rw [hcz]
-      have hh' : isHandler (loopStep env s) = true := by rw [h]; unfold isHandler; rw [hcz]; exact hh
-      have hp' : (loopStep env s).pending = true := by rw [h]; rfl
-      have hP : (loopStep env s).P = (cycle (cfgOf env s) s.P s.now s.now env.exec).P' := by rw [h]; rfl
-      rw [ih (loopStep env s) hp' hh', hcfg, hP]
-    · have hc2 : (cycle (cfgOf env s) s.P s.now s.now env.exec).closed = true := hc
-      simp [hc2]
-
-/-- external edits while no operator runs: only the essence moves -/
-def applyEdits (s : State E) (es : List E) : State E :=
-  es.foldl (fun st e => { st with ess := e }) s
-
-omit [DecidableEq E] in
-theorem applyEdits_fields (es : List E) : ∀ (s : State E),
-    (applyEdits s es).base = s.base ∧ (applyEdits s es).P = s.P ∧
-    (applyEdits s es).ess = (es.getLast?).getD s.ess := by
-  induction es with
-  | nil => intro s; exact ⟨rfl, rfl, rfl⟩
-  | cons e rest ih =>
-    intro s
-    have := ih { s with ess := e }
-    simp only [applyEdits, List.foldl_cons] at this ⊢
-    refine ⟨this.1, this.2.1, ?_⟩
-    rw [this.2.2]
-    cases rest with
-    | nil => rfl
-    | cons a as =>
-      cases h : (a :: as).getLast? with
-      | none => simp at h
-      | some v => simp [List.getLast?_cons_cons, h]
+theorem open_next (env : Env) (s : State E) (hp : s.pending = true) (hg : s.gone = false)
+    (ha : adjusting env s = false) (hpm : env.prematch = true)
+    (hh : isHandler s = true) (hc : (pass env s).closed = false) :
+    ∃ now' w, loopStep env s = nextState env s now' true w := by
+  rcases turn_cases env s hp hg with ⟨h1, _⟩ | ⟨h1, _⟩ | ⟨_, h1, _⟩ | ⟨_, _, _, _, hrel, _⟩ | ⟨_, _, _, _, h⟩
+  · unfold adjusting at ha; simp [h1] at ha
+  · unfold adjusting at ha; simp [h1] at ha
+  · rw [hpm] at h1; cases h1
+  · -- a release needs a pass without delays; an open pass has some
+    exfalso
+    have hr : handlerReasons.contains (cfgOf env s).reason = true := hh
+    have hne : (cfgOf env s).selected.isEmpty = false := by
+      cases he : (cfgOf env s).selected.isEmpty
+      · rfl
+      · exfalso
+        have := cycle_no_handlers (cfgOf env s) s.P s.now s.now env.exec hr he
+        unfold pass at hc
+        rw [this] at hc
+        cases hc
+    have hd : (pass env s).delays ≠ [] := by
+      unfold pass at hc ⊢
+      rw [cycle_main _ _ _ _ _ hr hne] at hc ⊢
+      exact delays_ne_nil _ _ _ hc
+    have hrun : (decisionOf env s).handlersRun = true := by
+      rw [dec_run]
+      unfold adjusting at ha
+      simp [hpm, ha]
+    rw [dec_rel, hrun] at hrel
+    cases hdl : (pass env s).delays with
+    | nil => exact hd hdl
+    | cons a as => simp [hdl] at hrel
+  · obtain ⟨now', w, hx⟩ := open_handle_pending env s hh hc
+    exact ⟨now', w, by rw [h, hx]⟩
 
 end Kopf.C03
